@@ -60,6 +60,8 @@ def r1(ctx):
                 yield VIOL("C18-R1", "static-type/" + owner, "lazy static `%s` now holds `%s`" % (owner, s["ty"]), where=loc(s["span"]))
         else:
             tops.append(owner)
+            if re.match(r"^std::sync::LazyLock<(regex::Regex|chrono::ParseError|chrono::format::ParseError)>$", s["ty"]):
+                continue  # std's equivalent of lazy_static for the same immutable values (initialised once, read-only after)
             if re.search(INTERIOR, s["ty"]):
                 bad = True
                 yield VIOL("C18-R1", "static-interior/" + p, "static `%s` has interior-mutable type %s" % (p, s["ty"]), where=loc(s["span"]))
